@@ -317,10 +317,12 @@ Inductive node :=
 | NAgg (op : aggop) (q : Q) (without : bool) (g : list nat)
 | NCall (fn : otfn)                                     (* fn_over_time(.) *)
 | NCallQ (q : Q)                                        (* quantile_over_time(q, .) *)
-| NPresent.                                             (* present_over_time(.) *)
+| NPresent                                              (* present_over_time(.) *)
+| NCmp (gt : bool) (c : Z).                             (* (. > c) / (. <= c): filtering comparison with a scalar *)
 
-Record sel := { s_what : what;      (* explicit __what__ matcher, WNone if absent *)
-                s_by : bool }.      (* explicit __by__ listing every tag: blocks reductions *)
+Record sel := { s_what : what;                 (* explicit __what__ matcher, WNone if absent *)
+                s_by : option (list nat) }.    (* explicit __by__ matcher (Some [] is __by__=""): the selector carries its own
+                                                  grouping (GroupBy != nil), reductions leave it alone *)
 
 (* reduceWhat *)
 Definition what_eqb (a b : what) : bool :=
@@ -440,8 +442,10 @@ Definition all_tags (ntags : nat) : list nat := seq 0 ntags.
 Definition plan (fixed counter : bool) (ntags : nat) (s : sel) (chain : list node) (step : Z)
   : what * list nat * Z * list node :=
   let explicit := if what_eqb (s_what s) WNone then default_what counter else s_what s in
-  if s_by s then (explicit, all_tags ntags, 0, chain)           (* GroupBy != nil: no reduction *)
-  else match eval_reduction fixed explicit chain step with
+  match s_by s with
+  | Some g => (explicit, filter (fun i => memn i g) (all_tags ntags), 0, chain)   (* GroupBy != nil: no reduction *)
+  | None =>
+       match eval_reduction fixed explicit chain step with
        | None => (explicit, all_tags ntags, 0, chain)           (* GroupByAll *)
        | Some r =>
          (* faithful: s.What = ar.what is never read by buildSeriesQuery (it reads s.Whats); repaired: unchanged *)
@@ -451,7 +455,8 @@ Definition plan (fixed counter : bool) (ntags : nat) (s : sel) (chain : list nod
                          else filter (fun i => memn i (rd_by r)) (all_tags ntags))
                    else all_tags ntags in
          (w, gb, rd_step r, skipn (rd_used r) chain)
-       end.
+       end
+  end.
 
 (* eval of the remaining chain; evr = ev.r *)
 Fixpoint eval_chain (fixed : bool) (t : list Z) (lodstep : Z) (chain : list node) (evr : Z) (l : list series) : list series :=
@@ -465,6 +470,12 @@ Fixpoint eval_chain (fixed : bool) (t : list Z) (lodstep : Z) (chain : list node
       eval_chain fixed t lodstep rest 0 (map (fun s => (fst s, quantile_over_time q t evr lodstep (snd s))) l)
   | NPresent :: rest =>
       eval_chain fixed t lodstep rest 0 (map (fun s => (fst s, present_run fixed t (snd s) evr None)) l)
+  | NCmp gt c :: rest =>
+      (* sliceScalarFilterGreater: "if v <= c { NilValue }", sliceScalarFilterLessOrEqual: "if v > c { NilValue }" *)
+      eval_chain fixed t lodstep rest evr
+        (map (fun s => (fst s, map (fun v => match v with
+                                            | Some x => if Bool.eqb (qlt (inject_Z c) x) gt then Some x else None
+                                            | None => None end) (snd s))) l)
   | NAgg op q wo g :: rest =>
       eval_chain fixed t lodstep rest evr (aggregate fixed op q wo g l)
   end.
